@@ -2,6 +2,7 @@
 use crate::report::Ctx;
 use crate::rng::Rng;
 
+pub mod netval;
 pub mod path;
 pub mod powertrain;
 
@@ -86,6 +87,15 @@ pub fn spec(id: &str) -> Option<Spec> {
             cases_thorough: 300000,
             rule: "case = generated valid network x 3 (train, route) pairs x every extension schedule; link boundaries, elevation (all breakpoints + midpoints), grade and curve coefficients (independent atan2 formulation), cumulative curve resistance, catenary shifts and count bookkeeping are compared with a reference walk over the route's own points; paths from different schedules are compared with PartialEq; one spliced non-contiguous route per case must be rejected with Err. Non-trivial = route of >=3 links with a link without headings, with wrap-around headings or with catenary; distinct = hash of route geometry",
             assumptions: PATH_ASSUME,
+        },
+        "C16" => Spec {
+            id: "C16",
+            run: netval::run_c16,
+            cases_quick: 160,
+            cases_thorough: 6000,
+            rule: "case = one generated consistent network (1..6 gaps, sidings, flips, lockouts, typed/untyped speed sets, catenary). (a) it must be accepted by [Link]::validate, Network::from_json, from_yaml and from_file; (b) EVERY single-fault mutation of it is enumerated - each listed rule broken at every link (dummy entry, idx=position, flip mutual/self, next/prev/alt reciprocity, alt without primary, coincident switch points, elevation/heading profile start/end/sorted/duplicate/single, speed section start>end/duplicate/unsorted, catenary overlap/start>end, length <=0 / NaN / inf, NaN/negative numeric fields, references = len, len+1, u32::MAX) - and must yield an error value on every load path, never a panic; (c) the network rewritten in the legacy layout must load equal. Non-trivial/distinct = hash of the valid network's structure (every case enumerates all of its faults)",
+            assumptions: &["only rules named in the property statement are expected to reject (Expect::Reject); non-finite but otherwise meaningful values (infinite speed, lockout reference out of range) are only required not to crash and are recorded",
+                "legacy layout is produced by rewriting the current-layout YAML (speed_sets map -> typed list); only networks whose links all use typed speed_sets have a legacy form"],
         },
         _ => return None,
     })
